@@ -40,7 +40,7 @@ def run_shard(prop, spec, workdir, idx, timeout):
     with open(specfile, "w") as f:
         json.dump(spec, f)
     env = dict(os.environ)
-    env["PYTHONHASHSEED"] = str(spec.get("_hashseed", 0))
+    env["PYTHONHASHSEED"] = os.environ.get("PV_FORCE_HASHSEED") or str(spec.get("_hashseed", 0))
     env["PV_TIEBREAK"] = os.environ.get("PV_FORCE_TIEBREAK") or spec.get("_tiebreak", "fifo")
     env["PYTHONPATH"] = VERIF
     env["PYTHONDONTWRITEBYTECODE"] = "1"
@@ -104,7 +104,7 @@ def main(argv=None):
     for k, s in enumerate(specs):
         if variants:
             s.setdefault("_tiebreak", ("fifo", "lifo", "fifo", "random")[k % 4])
-        s.setdefault("_hashseed", 0)
+        s.setdefault("_hashseed", (k // 4) % 4 if a.tier == "thorough" and not a.replay else 0)
         s.setdefault("_watchdog_s", shard_timeout - 20)
         s["tier"] = a.tier
 
